@@ -2209,6 +2209,9 @@ class HDKey(Key):
                     first_public = False
                 else:
                     key = key.child_private(index=index, hardened=hardened, network=network)
+        if first_public and key.is_private:
+            # 'M' without further items: the public master key itself
+            key = key.public()
         return key
 
     def public_master(self, account_id=0, purpose=None, multisig=None, witness_type=None, as_private=False):
